@@ -48,6 +48,7 @@ import (
 	"sync/atomic"
 	"time"
 
+	"harness/internal/childcase"
 	"harness/internal/lp"
 	"harness/internal/quiesce"
 
@@ -606,7 +607,47 @@ func kvs(f []string) map[string]string {
 	return m
 }
 
+// exec: cases that contain a panicking job run in a child process (a panic that Conn.execute / Timer.Async
+// does not recover kills the process; the parent turns that into a direct-oracle report with the case as
+// the failing input); everything else runs in-process.
 func exec(e *lp.Exec) {
+	if childcase.IsChild() {
+		execStream(e)
+		return
+	}
+	var batch []string
+	flush := func() {
+		if len(batch) > 0 {
+			e.In = childcase.Scanner(batch)
+			execStream(e)
+			batch = nil
+		}
+	}
+	for _, cs := range childcase.Split(e.In) {
+		risky := false
+		for _, l := range cs {
+			if strings.Contains(l, " p=1") {
+				risky = true
+			}
+		}
+		if !risky {
+			batch = append(batch, cs...)
+			continue
+		}
+		flush()
+		if crashed, why := childcase.Run(e, cs); crashed {
+			name := "c05-log"
+			if strings.Contains(cs[0], "kind=async") {
+				name = "c19-async-fifo"
+			}
+			e.Oracle(name, "panic: a panicking job killed the process instead of being recovered (%s); later jobs cannot run", why)
+			e.Key("crash|"+cs[0], true)
+		}
+	}
+	flush()
+}
+
+func execStream(e *lp.Exec) {
 	lg := &capLogger{}
 	logging.SetLogger(lg)
 	var s *sess
